@@ -8,6 +8,8 @@ CONSTANTS
   KNum = 1
   KDen = 10
   Normalise = TRUE
+  Fold = FALSE
+  FoldWeight = 2
   Export = FALSE
 INVARIANT ErrBound
 PROPERTY BoundHalves
